@@ -44,8 +44,9 @@ func (e *engine) dirShrinks() {
 		)
 	}
 	for _, h := range hs {
+		rng := e.c.Rng.Fork() // forked whether or not the history is wanted: --only must not shift the later histories
 		if e.wantHist(h.name) {
-			e.dirShrink(h, e.c.Rng.Fork())
+			e.dirShrink(h, rng)
 		}
 	}
 }
